@@ -11,15 +11,39 @@ FEATURES = {
     "k64r": "alloc,rand_core,der,rlp,hybrid-array,serde",
     "k8": "alloc,rand_core",
 }
-MEM_LIMIT = int(os.environ.get("VERIF_MEM_GB", "12")) * (1 << 30)
+MEM_LIMIT = int(os.environ.get("VERIF_MEM_GB", "10")) * (1 << 30)
 
 
 def _limits():
-    try:
-        resource.setrlimit(resource.RLIMIT_AS, (MEM_LIMIT, MEM_LIMIT))
-    except Exception:
-        pass
     os.setsid()
+
+
+def _watchdog(pgid, stop, log_path):
+    """Kill any cbmc of our process group whose RSS exceeds MEM_LIMIT (an OOM is
+    reported as inconclusive by the parser, never as a pass)."""
+    page = os.sysconf("SC_PAGE_SIZE")
+    while not stop.wait(5.0):
+        try:
+            for pid in os.listdir("/proc"):
+                if not pid.isdigit():
+                    continue
+                try:
+                    with open("/proc/%s/stat" % pid) as fh:
+                        st = fh.read()
+                    comm = st[st.index("(") + 1:st.rindex(")")]
+                    if "cbmc" not in comm:
+                        continue
+                    rest = st[st.rindex(")") + 2:].split()
+                    pg = int(rest[2])
+                    rss = int(rest[21]) * page
+                    if pg == pgid and rss > MEM_LIMIT:
+                        os.kill(int(pid), 9)
+                        with open(log_path, "a") as lf:
+                            lf.write("\n[watchdog] killed cbmc pid %s rss %.1f GB\n" % (pid, rss / 2**30))
+                except (OSError, ValueError, IndexError):
+                    continue
+        except OSError:
+            pass
 
 
 def base_env(profile):
@@ -36,7 +60,7 @@ def kani_cmd(profile, harness_names, jobs, timeout_s, json_path, target_dir, ext
     cmd = ["cargo", "kani", "--no-default-features", "--features", FEATURES[profile]]
     for h in harness_names:
         cmd += ["--harness", h]
-    cmd += ["--exact"]
+    cmd += ["--exact", "--no-assertion-reach-checks"]
     cmd += ["-j", str(jobs), "--output-format", "terse", "-Z", "unstable-options",
             "-Z", "stubbing",
             "--harness-timeout", "%ds" % timeout_s, "--export-json", json_path,
@@ -67,6 +91,10 @@ def run(top, profile, harnesses, jobs, timeout_s, log_path, extra=None):
         try:
             p = subprocess.Popen(cmd, cwd=crate, env=base_env(profile), stdout=log,
                                  stderr=subprocess.STDOUT, preexec_fn=_limits)
+            import threading
+            stop = threading.Event()
+            wd = threading.Thread(target=_watchdog, args=(p.pid, stop, log_path), daemon=True)
+            wd.start()
             try:
                 rc = p.wait(timeout=overall)
             except subprocess.TimeoutExpired:
@@ -75,6 +103,8 @@ def run(top, profile, harnesses, jobs, timeout_s, log_path, extra=None):
                 except Exception:
                     p.kill()
                 rc = -9
+            finally:
+                stop.set()
         except Exception as e:  # pragma: no cover
             log.write("runner exception: %r\n" % (e,))
             rc = -1
@@ -127,7 +157,7 @@ def parse(data, text, harnesses, timeout_s):
             "harness": h.name, "id": hid, "profile": h.profile, "props": h.props,
             "funcs": h.funcs, "bound": h.bound, "free_bits": h.free_bits,
             "expect": h.expect, "should_panic": h.should_panic,
-            "stubs": h.stubs, "assumes": h.assumes,
+            "stubs": h.stubs, "assumes": h.assumes, "must_panic": h.must_panic,
         }
         if r is None:
             # not in JSON: timed out, crashed, or never ran
